@@ -127,6 +127,11 @@ def stage_oracle(ctx: Ctx, progs):
             continue
         lines = src.split('\n')
         toks = token_index(src)
+        import io as _io
+        try:
+            comment_col = {t.start[0] - 1: t.start[1] for t in tokenize.generate_tokens(_io.StringIO(src).readline) if t.type == tokenize.COMMENT}
+        except Exception:
+            comment_col = {}
         tstarts = {(t.start[0] - 1, t.start[1]) for t in toks}
         tends = {(t.end[0] - 1, t.end[1]) for t in toks}
         ctx.tick(('prog', pi, src != src0), 'program' + (':multibyte' if src != src0 else ''))
@@ -152,6 +157,24 @@ def stage_oracle(ctx: Ctx, progs):
                     ctx.violation(f'coords|{name}', 'AST-style coordinates on the FST node disagree with the AST node', {'src': src, 'node': name})
                 if (f.ln, f.col, f.end_ln, f.end_col) != tuple(loc):
                     ctx.violation(f'coords2|{name}', 'ln/col/end_ln/end_col disagree with loc', {'src': src, 'node': name})
+            # (1b) the bounding location: loc, from the first decorator's '@' when decorated, to the end of a line comment behind a BLOCK statement's last line
+            bl = f.bloc
+            is_block = isinstance(a, (ast.FunctionDef, ast.AsyncFunctionDef, ast.ClassDef, ast.If, ast.For, ast.AsyncFor, ast.While, ast.With, ast.AsyncWith, ast.Try, ast.TryStar, ast.Match,
+                                      ast.ExceptHandler, ast.match_case))
+            want_b = [ln, col, eln, ecol]
+            if is_block:
+                if eln in comment_col and comment_col[eln] >= ecol:
+                    want_b[3] = len(lines[eln])
+                decos = getattr(a, 'decorator_list', None)
+                if decos:
+                    d0 = decos[0]
+                    ats = [t for t in toks if t.string == '@' and t.type == tokenize.OP and (t.start[0] - 1, t.start[1]) < (d0.lineno - 1, len(lines[d0.lineno - 1].encode()[:d0.col_offset].decode()))]
+                    if ats:
+                        want_b[0], want_b[1] = ats[-1].start[0] - 1, ats[-1].start[1]
+                        # parenthesized first decorator: the '@' is still the last '@' before it
+            if bl is None or list(bl) != want_b:
+                ctx.violation(f'bloc|{name}', 'the bounding location is not the location extended by the decorators and the trailing line comment of a block statement',
+                              {'src': src, 'node': name, 'loc': list(loc), 'bloc': list(bl) if bl else None, 'expected': want_b, 'last_line': lines[eln]})
             # (2) starts at a token start, ends at a token end (nodes inside f-strings have no tokens of their own in tokenize <3.12 sense)
             inside_fstr = any(isinstance(p.a, (ast.JoinedStr,)) for p in parents(f))
             if isinstance(a, ast.arguments) and f.parent is not None:
@@ -300,6 +323,11 @@ def run(ctx: Ctx):
         ctx.build_props()
     run_guarded(ctx, stage_bistr)
     progs = corpus(ctx.rng, gen=ctx.scale(15, 150))
+    # what follows a header / a last line: decorated first statements (a ')' in the decorator), '#' inside strings on the last line of a block followed by blanks
+    progs += ['def deco(fn):\n    @functools.wraps(fn)\n    def wrapper(): pass\n    return wrapper\n', 'class K:\n    @property\n    def p(self): return (1)\n    @p.setter\n    def p(self, v): pass\n',
+              "if a:\n    x = '#fff'   \nelse:\n    y = '''\n  # not a comment'''  \t\n", 'for i in j:\n    s = "#"  # real comment  \nwhile k:\n    t = f"{u}#"   \n',
+              'def f(a=(1)):\n    @d((2))\n    class C: pass\nasync def g(b):\n    @e(b)\n    async def h(): pass\n', 'try:\n    pass\nexcept E:\n    z = "a#b"    \nfinally:\n    w = 1 # c\n',
+              'match v:\n    case 1:\n        q = "#"   \n    case _:\n        r = 2  # c\n', 'with a:\n    pass ;  # semi\nif b: c = "#" ;  \n']
     run_guarded(ctx, stage_oracle, progs)
 
 
